@@ -92,6 +92,33 @@ theorem C03_call_attributes_frame (kvs : List Val) (st st' : St) (v : Val)
   obtain ⟨h1, h2, h3, _, _, h6⟩ := g.rest
   exact ⟨g.getArr, g.getMap, h1, h2, h3, h6, hv⟩
 
+/-- the three runtime helpers that are function literals in the funcmap (`pugjs/runtime.go`), statement by statement, as the models
+`mapParams`, `__op__array` and `__op__map` of `Tpl/Exec.lean` were written against; regenerated from the Go source on every run -/
+def expected_helperLitBodies : List (String × String) :=
+  [("__op__map_params", "m := make(map[interface{}]interface{}, len(a)/2)"),
+   ("__op__map_params", "for i := 0; i < len(a); i += 2 {"),
+   ("__op__map_params", "if _, ok := m[a[i]]; ok {"),
+   ("__op__map_params", "if x, ok := m[a[i]].([]interface{}); ok {"),   -- a raw Go slice: only ever the list this loop built itself
+   ("__op__map_params", "m[a[i]] = append(x, a[i+1])"),
+   ("__op__map_params", "} else {"),
+   ("__op__map_params", "m[a[i]] = []interface{}{m[a[i]], a[i+1]}"),   -- a FRESH list of the first and the second value
+   ("__op__map_params", "} else {"),
+   ("__op__map_params", "m[a[i]] = a[i+1]"),
+   ("__op__map_params", "return convert(m)"),
+   ("__op__array", "return convert(a)"),
+   ("__op__map", "m := &Map{"),
+   ("__op__map", "items:\tmake(map[string]Object, len(a)/2),"),
+   ("__op__map", "order:\tmake([]string, 0, len(a)/2),"),
+   ("__op__map", "for i := 0; i < len(a); i += 2 {"),
+   ("__op__map", "m.items[convert(a[i]).String()] = convert(a[i+1])"),
+   ("__op__map", "m.order = append(m.order, convert(a[i]).String())"),
+   ("__op__map", "return m")]
+
+/-- **C03 (the model's tie to the code of the helper, statement by statement).** A change to any statement of `__op__map_params`
+(or of the array / object literal helpers) re-opens this obligation before any input is drawn. -/
+theorem C03_helper_bodies : Gen.helperLitBodies_ok = true ∧ Gen.helperLitBodies = expected_helperLitBodies := by
+  constructor <;> decide
+
 /-! non-vacuity: `+m(class=xs class='x')` over a heap that holds `xs = ["a", "b"]`: the helper returns, the result is the new map 0,
 its `class` is the NEW array 1 = [xs, "x"], and array 0 still is ["a", "b"] -/
 example :
